@@ -213,9 +213,17 @@ class MEIExporter:
                 for onset in unique_onsets:
                     # group by start time
                     notes = voice_notes[note_start_times == onset]
+                    # grace notes are not part of the chord they start with:
+                    # they are written on their own before their main note
+                    grace_mask = np.array(
+                        [isinstance(n, spt.GraceNote) for n in notes], dtype=bool
+                    )
+                    for grace_note in notes[grace_mask]:
+                        self._handle_note_or_rest(grace_note, voice_el)
+                    notes = notes[~grace_mask]
                     if len(notes) > 1:
                         self._handle_chord(notes, voice_el)
-                    else:
+                    elif len(notes) == 1:
                         self._handle_note_or_rest(notes[0], voice_el)
 
         self._handle_tuplets(measure_el, start=measure.start.t, end=measure.end.t)
